@@ -146,8 +146,17 @@ func (p *FloatingIPPlugin) allocateIP(key string, nodeName string, pod *corev1.P
 		if err != nil {
 			return nil, err
 		}
-		if _, err := p.ipam.AllocateInSubnetsAndIPRange(key, subnet, unallocatedIPRange, attr); err != nil {
-			return nil, err
+		reused := false
+		if keyObj := util.ParseKey(key); len(ipranges) == 0 && keyObj.Deployment() &&
+			policy != constant.ReleasePolicyPodDelete {
+			// the app may hold reserved ips by now (e.g. resync has put the ip this pod held during filter back to the
+			// reserve), take one of them rather than a fresh ip
+			reused = p.ipam.AllocateInSubnetWithKey(keyObj.PoolPrefix(), key, subnet.String(), attr) == nil
+		}
+		if !reused {
+			if _, err := p.ipam.AllocateInSubnetsAndIPRange(key, subnet, unallocatedIPRange, attr); err != nil {
+				return nil, err
+			}
 		}
 		ipInfos, err = p.ipam.ByKeyAndIPRanges(key, ipranges)
 		if err != nil {
